@@ -11,6 +11,8 @@
 #   without wrapper.
 # * "fails cleanly or yields a message that re-encodes to an equivalent message": Decode(b) = d without error
 #   implies Decode(Encode(d)) = d (no demand that Encode(d) = b: trailing bytes and lenient tails are allowed).
+# * legacy encodings (node info of an older protocol version, ending before the fields appended since) are part of
+#   "decoding arbitrary bytes": they must decode to the message with those fields at their zero value.
 # * "out of proportion": bytes allocated during one Decode call <= 1 MiB + 64 * len(input) (DESIGN.md).
 import vf, _codec as K
 
@@ -45,6 +47,7 @@ def run(ctx):
         tlc_shapes=len(vecs), tlc_states=ideal.distinct, message_types=len(summ["per_type"]),
         shapes_per_type=summ["per_type"], strict_prefixes=summ["prefixes"], cell_mutations=summ["cell_mutations"],
         byte_mutations=summ["byte_mutations"], random_inputs=summ["random_inputs"],
+        legacy_encodings=summ["legacy_shapes"],
         hostile_count_vectors=summ["hostile"], accepted_hostile_inputs=summ["accepted"],
         alloc_measured=summ["alloc_measured"], max_alloc_bytes=summ["max_alloc"], max_alloc_type=summ["max_alloc_type"],
         layout_mismatches=summ["bind_errors"], deviations_caught=caught,
